@@ -132,6 +132,9 @@ def _write_inputs(case, d):
     refp, qryp = os.path.join(d, "ref.cmap"), os.path.join(d, "qry.cmap")
     with open(refp, "w") as f:
         f.write(cmap_text.cmap_text(case["refs"], case.get("ref_rows"), case.get("ref_cols"), case.get("ref_extra", 0)))
+    if case.get("same_file"):
+        # self-alignment: one CMAP file named as reference and as query (case["queries"] must equal case["refs"])
+        return refp, refp
     with open(qryp, "w") as f:
         f.write(cmap_text.cmap_text(case["queries"], case.get("qry_rows"), case.get("qry_cols"), case.get("qry_extra", 0)))
     return refp, qryp
